@@ -1098,3 +1098,57 @@ func ruleArgsAllConverted(c *Ctx, r *R) {
 		r.undecided("unresolved:sites", "-", "UNRESOLVED: no argument conversion found in the Math built-ins")
 	}
 }
+
+func init() {
+	register(&Rule{ID: "SORT-sign", Props: []string{"C08"}, Min: 1,
+		Doc: "G: ES5 15.4.4.11 - only the sign of the comparator's result matters (v < 0, v = 0, v > 0); an infinite result is negative or positive like any other. The helper that maps the comparator's result to a sign for the sort (the function sortCompare hands the result of the user's comparator to) does not consult math.IsInf on the way to returning 0: only NaN and zero compare as equal",
+		Run: ruleSortSign})
+}
+
+func ruleSortSign(c *Ctx, r *R) {
+	var sortCompare *ssa.Function
+	for _, fn := range c.AllSrcFuncs("") {
+		if fn.Name() == "sortCompare" && fn.Parent() == nil {
+			sortCompare = fn
+		}
+	}
+	if sortCompare == nil {
+		r.undecided("unresolved:sortCompare", "-", "UNRESOLVED: sortCompare")
+		return
+	}
+	n := 0
+	for _, b := range sortCompare.Blocks {
+		for _, ins := range b.Instrs {
+			call, ok := ins.(*ssa.Call)
+			if !ok {
+				continue
+			}
+			callee := call.Call.StaticCallee()
+			if callee == nil || callee.Pkg == nil || callee.Pkg.Pkg.Path() != ottoPath || callee.Signature.Results().Len() != 1 {
+				continue
+			}
+			if b, ok := callee.Signature.Results().At(0).Type().Underlying().(*types.Basic); !ok || b.Kind() != types.Int {
+				continue
+			}
+			if callee.Signature.Params().Len() != 1 || !typeIs(callee.Signature.Params().At(0).Type(), ottoPath, "Value") {
+				continue
+			}
+			n++
+			inf := false
+			for _, cb := range callee.Blocks {
+				for _, ci := range cb.Instrs {
+					if c2, ok := ci.(*ssa.Call); ok {
+						if f := c2.Call.StaticCallee(); f != nil && f.Pkg != nil && f.Pkg.Pkg.Path() == "math" && f.Name() == "IsInf" {
+							inf = true
+						}
+					}
+				}
+			}
+			r.check(!inf, "sign:"+callee.Name(), c.Pos(callee.Pos()), "the sign helper treats infinities by their sign",
+				callee.Name()+" consults math.IsInf when it maps the comparator's result to a sign: a comparator returning ±Infinity is treated as `equal`, so `[3,1,2].sort(function(a,b){ return a > b ? Infinity : -Infinity })` is not sorted (ES5 15.4.4.11: only the sign matters)")
+		}
+	}
+	if n == 0 {
+		r.undecided("unresolved:sign-helper", c.Pos(sortCompare.Pos()), "UNRESOLVED: sortCompare calls no Value -> int helper")
+	}
+}
